@@ -663,6 +663,11 @@ func raceProbe(p *probeOut) {
 		must(a.RegisterWaitingTunnel(ctx, &tunnel.WaitingState{TunnelID: "T", SourceNodeID: "node-a", TargetHost: "second"}))
 	}
 	p.RaceLookupB = lookRes(b.LookupWaitingTunnel(ctx, "T"))
+	if hs.onDelete != nil {
+		// the lookup issued no Delete: there is no window; register the second record now and look it up
+		hs.onDelete = nil
+		must(a.RegisterWaitingTunnel(ctx, &tunnel.WaitingState{TunnelID: "T", SourceNodeID: "node-a", TargetHost: "second"}))
+	}
 	p.RaceAfter = lookRes(b.LookupWaitingTunnel(ctx, "T"))
 	p.RaceLost = p.RaceAfter != "ok:second"
 }
